@@ -83,8 +83,9 @@ class FactorColumnOp(BaseOp):
 
         factor_values = self.factor_values
         factor_names = self.factor_names
-        if len(factor_values) == 0:
-            factor_values = df[self.column_name].unique()
+        if not factor_values:
+            factor_values = df[self.column_name].dropna().unique()
+        if not factor_names:
             factor_names = [self.column_name + '.' +
                             str(column_value) for column_value in factor_values]
 
